@@ -98,6 +98,14 @@ def cases(ctx):
             for q in (0, 1):
                 if mine():
                     yield {"kind": "rot", "axis": axis, "d": d, "q": q, "mode": "hw", "debug": False}
+    rng = ctx.rng
+    for _ in range(ctx.n(150, 20000) * ctx.nshards):
+        if mine():
+            n1, n2 = rng.choice([0, 1, 100, 127, 128, 200, 255, rng.randrange(256)]), rng.choice([1, 56, 100, 128, 200, 255, rng.randrange(256)])
+            d = rng.choice([0, 1, 4, 7, 8, 9, 12, 31, rng.randrange(40)])
+            yield {"kind": "rotpair", "axes": [rng.choice("xyz"), rng.choice("xyz")] if rng.random() < 0.4 else [rng.choice("xyz")] * 2,
+                   "n": [n1, n2], "d": [d, d if rng.random() < 0.7 else rng.randrange(12)], "q": rng.choice([0, 1, 2]),
+                   "third": rng.choice([None, "h", "x"])}
     for m in ("static", "rot", "crot"):
         if m == "static":
             if mine():
@@ -205,6 +213,20 @@ def _run(ctx, case):
                     break
         finally:
             set_is_using_hardware(False)
+    elif kind == "rotpair":
+        # legal vanilla code may apply several gates to the register it has just set (hand-written subroutines do)
+        q = case["q"]
+        prog = [["set", [["Q", 0], q]], ["rot_" + case["axes"][0], [["Q", 0], case["n"][0], case["d"][0]]],
+                ["rot_" + case["axes"][1], [["Q", 0], case["n"][1], case["d"][1]]]]
+        ops = [(rq.rot(case["axes"][0], rq.angle_nd(case["n"][0], case["d"][0])), [q]),
+               (rq.rot(case["axes"][1], rq.angle_nd(case["n"][1], case["d"][1])), [q])]
+        if case["third"]:
+            prog.append([case["third"], [["Q", 0]]])
+            ops.append((rq.STATIC1[case["third"]], [q]))
+        got = b.run(transpiled(prog, False), b.choi())
+        ctx.count("rotations_checked", 2)
+        ctx.count("gate_sequences_checked")
+        _cmp(ctx, case, got, ideal(b, ops), b, f"sequence {prog[1:]} on qubit {q}")
     elif kind == "matrix":
         _matrices(ctx, case)
     else:
